@@ -70,11 +70,26 @@ fn tr(rep: &mut Report, p: &Pair, op: &Op, obs: &Obs, both: bool) {
 
 /// Feed a packet with a wrong PEC to A only.
 fn bad(p: &mut Pair, x: &[u8], kind: &'static str, rep: &mut Report) {
+    bad_primed(p, x, kind, None, rep)
+}
+
+/// `prime`: a related *valid* packet. Before each of the two calls on the bad bytes the context
+/// (and its twin) may first see a harmless read-only call on the valid packet (get_length on its
+/// header, a decode) - what a receiver does while a later copy of the packet gets damaged.
+fn bad_primed(p: &mut Pair, x: &[u8], kind: &'static str, prime: Option<&[u8]>, rep: &mut Report) {
     debug_assert!(!pec_ok(x));
     let before = eids(p.a);
     let f = crate::refmodel::refdec::facts(x);
     let cls = crate::classify::decode_class_f(&f);
     for api in 0..2 {
+        if let Some(v) = prime {
+            match (p.step + api) % 4 {
+                0 => good(p, &Op::GetLength(v.to_vec()), rep),
+                1 => good(p, &Op::GetLength(v[..3.min(v.len())].to_vec()), rep),
+                2 => good(p, &Op::GetLength(x.to_vec()), rep),
+                _ => good(p, &Op::Decode(v.to_vec()), rep),
+            }
+        }
         let op = if api == 0 { Op::Decode(x.to_vec()) } else { Op::Process(x.to_vec()) };
         p.step += 1;
         let obs = exec(p.a, &op, 64 + (p.step % 237) as usize, p.step ^ 0xC02);
@@ -225,7 +240,11 @@ fn run(cfg: &RunCfg) -> Report {
             for d in 1..=255u8 {
                 let mut x = base.clone();
                 x[n - 1] ^= d;
-                bad(p, &x, "wrong-pec-value", rep);
+                if d % 5 == 0 {
+                    bad_primed(p, &x, "wrong-pec-value", Some(base), rep);
+                } else {
+                    bad(p, &x, "wrong-pec-value", rep);
+                }
                 if d % 64 == 0 {
                     probe(p, rng, m, rep);
                 }
@@ -250,7 +269,11 @@ fn run(cfg: &RunCfg) -> Report {
                             rep.inconclusive.push(format!("generator self-check failed: burst at bit {} pattern {:#x} left the reference CRC unchanged", off, 0x80 | pat));
                             continue;
                         }
-                        bad(p, &x, "burst<=8bits", rep);
+                        if (off + pat as usize) % 3 == 0 {
+                            bad_primed(p, &x, "burst<=8bits", Some(base), rep);
+                        } else {
+                            bad(p, &x, "burst<=8bits", rep);
+                        }
                         if p.log.len() > LOG_LIMIT {
                             p.log.clear();
                         }
@@ -304,7 +327,8 @@ fn run(cfg: &RunCfg) -> Report {
                                 let i = rng.below(l as u64 - 1) as usize;
                                 x[i] ^= 1 << rng.below(8);
                             }
-                            bad(p, &x, "corrupted-assignment", rep);
+                            let orig = { let mut o = x.clone(); crate::refmodel::forge::fix_pec(&mut o); o };
+                            bad_primed(p, &x, "corrupted-assignment", Some(&orig), rep);
                         }
                     }
                     _ => probe(p, rng, m, rep),
